@@ -127,7 +127,8 @@ def circleFlatteningStep (radius tolerance : α) : α :=
   let tol := Scalar.min tolerance radius
   two * Transc.acos ((radius - tol) / radius)
 
-/-- `f32::round` (half away from zero) from `floor`; `x - floor x` is exact in IEEE arithmetic -/
+/-- `f32::round` (half away from zero) from `floor`; `x - floor x` is exact in IEEE arithmetic.
+(Used by the subdivision count before /repo fix da84e187; kept for reference, no longer called.) -/
 def roundPos (x : α) : α :=
   let f := Transc.floor x
   if x - f ≥ half then f + one else f
@@ -136,13 +137,20 @@ def round (x : α) : α := if x < zero then -(roundPos (-x)) else roundPos x
 /-- `x as u32` (saturating) -/
 def toU32 (x : α) : Nat := Nat.min (Transc.toNat x) 4294967295
 
-/-- `num_subdivisions = (diff.abs() / step).ceil().log2().round() as u32` -/
+/-- `num_segments = (diff.abs() / step).ceil()` -/
+def numSegments (diff radius tolerance : α) : α :=
+  Transc.ceil (abs diff / circleFlatteningStep radius tolerance)
+
+/-- `num_subdivisions = num_segments.log2().ceil() as u32` (round joins and round caps; the
+ceiling is /repo fix da84e187, before it was `.round()`) -/
 def numSubdivisions (diff radius tolerance : α) : Nat :=
-  let step := circleFlatteningStep radius tolerance
-  let numSegments := Transc.ceil (abs diff / step)
-  toU32 (round (Transc.log2 numSegments))
+  toU32 (Transc.ceil (Transc.log2 (numSegments diff radius tolerance)))
 
 end
+
+/-- `⌈log₂ n⌉` on naturals (0 for `n ≤ 1`): what `.log2().ceil() as u32` computes for an
+integer-valued segment count `n` in exact arithmetic -/
+def ceilLog2 (n : Nat) : Nat := if n ≤ 1 then 0 else Nat.log2 (n - 1) + 1
 
 /-! ## Output recording (`StrokeGeometryBuilder` handing out consecutive ids) -/
 
